@@ -193,18 +193,16 @@ def r3_submit_order(chk: Check):
     g = CFG(f.node)
     loc = chk.loc(f.module, f.node)
     ini = [n for n in g.live if n.kind == "stmt" and src(n.ast) == "self.init_tasks = init_tasks"]
-    vs = [n for n, c in g.call_nodes(lambda c: dotted(c.func) == "self.validate_and_seal")]
+    # (validate_and_seal is spliced into submit at load time: the rule reads `self.validate()` ... `self.seal(context)` in submit itself)
+    va = [n for n, c in g.call_nodes(lambda c: src(c) == "self.validate()")]
+    vs = [n for n, c in g.call_nodes(lambda c: dotted(c.func) == "self.seal")]
     upd = [n for n, c in g.call_nodes(lambda c: dotted(c.func) == "self.updatedependencies")]
     sub = [n for n, c in g.call_nodes(lambda c: src(c).startswith("experiment.CURRENT.submit("))]
-    ok = len(ini) == 1 and len(vs) == 1 and g.dominates(ini[0], vs[0])
+    ok = len(ini) == 1 and len(vs) == 1 and len(va) == 1 and g.dominates(ini[0], va[0]) and g.dominates(ini[0], vs[0])
     chk.require(ok, chk.fkey(f, "init tasks before sealing"), "init tasks must be attached before the configuration is validated and sealed (they are part of the identifier)", loc)
     ok = len(vs) == 1 and upd and sub and all(g.dominates(vs[0], u) for u in upd) and all(g.dominates(vs[0], s) for s in sub)
     chk.require(ok, chk.fkey(f, "seal before scheduling"), "the task must be validated and sealed before dependencies are collected and before it is handed to the scheduler", loc)
-    v = tree.func("core.objects", "ConfigInformation.validate_and_seal")
-    gv = CFG(v.node)
-    a = [n for n, c in gv.call_nodes(lambda c: src(c) == "self.validate()")]
-    b = [n for n, c in gv.call_nodes(lambda c: dotted(c.func) == "self.seal")]
-    chk.require(len(a) == 1 and len(b) == 1 and gv.dominates(a[0], b[0]), chk.fkey(v, "validate then seal"), "validation must precede sealing", chk.loc(v.module, v.node))
+    chk.require(len(va) == 1 and len(vs) == 1 and g.dominates(va[0], vs[0]), chk.fkey(f, "validate then seal"), "validation must precede sealing", loc)
     # the job directory is derived from the identifier after sealing: Job() is created before sealing but reads the identifier lazily (properties)
     for p in ("relpath", "identifier"):
         jp = tree.cls("scheduler.base", "Job").methods[p]
